@@ -615,6 +615,8 @@ def needs_sep(a: str, b: str) -> bool:
         return True
     if x.isdigit() and y == ".":
         return True
+    if x in "'\"" and y == x:
+        return True   # '' followed by a quote would open a triple-quoted string (never adjacent in the grammar)
     return False
 
 
